@@ -103,7 +103,8 @@ type c13Pod struct {
 	Kind      string      `json:"kind"` // bare | statefulset
 	K         int         `json:"k"`
 	Requests  [][]ipRange `json:"-"`
-	ReqText   string      `json:"request_annotation,omitempty"`
+	ReqText   string      `json:"request_annotation,omitempty"` // the whole k8s.v1.cni.galaxy.io/args value the pod is created with
+	Stale     []expIP     `json:"stale_ipinfos_in_annotation,omitempty"`
 	NetAnn    string      `json:"networks_annotation,omitempty"`
 	nodeSub   string
 	nNetworks int
@@ -258,6 +259,7 @@ func genWorld(rng *rand.Rand, nPods int) *c13World {
 		}
 		if len(w.Pods) >= nRanged || i >= 3*nPods {
 			pod.K = 1
+			w.addStale(rng, pod, "")
 			w.Pods = append(w.Pods, pod)
 			continue
 		}
@@ -307,10 +309,52 @@ func genWorld(rng *rand.Rand, nPods int) *c13World {
 			}
 			outer = append(outer, "["+strings.Join(inner, ",")+"]")
 		}
-		pod.ReqText = `{"request_ip_range":[` + strings.Join(outer, ",") + `]}`
+		rangeText := `"request_ip_range":[` + strings.Join(outer, ",") + `]`
+		pod.ReqText = `{` + rangeText + `}`
+		w.addStale(rng, pod, rangeText)
 		w.Pods = append(w.Pods, pod)
 	}
 	return w
+}
+
+// addStale gives about a quarter of the pods an args annotation that already carries common.ipinfos, as a pod
+// re-created from an exported manifest / a backup / a controller cloning annotations would: 1-3 entries with
+// addresses inside and outside the configured pools and arbitrary masks, gateways and vlans. None of them is
+// something IPAM allocated to this pod, so none of them may reach a plugin.
+func (w *c13World) addStale(rng *rand.Rand, pod *c13Pod, rangeText string) {
+	if rng.Intn(4) != 0 {
+		return
+	}
+	n := 1 + rng.Intn(3)
+	var items []string
+	for i := 0; i < n; i++ {
+		var e expIP
+		switch rng.Intn(3) {
+		case 0: // inside a configured pool, with that pool's own parameters (looks perfectly plausible)
+			p := w.Pools[rng.Intn(len(w.Pools))]
+			r := p.Ranges[rng.Intn(len(p.Ranges))]
+			e = expIP{IP: u32ip(r.First + uint32(rng.Intn(int(r.Last-r.First+1)))), Prefix: p.Prefix, Gateway: p.Gateway, Vlan: p.Vlan}
+		case 1: // inside a configured pool, other mask / gateway / vlan
+			p := w.Pools[rng.Intn(len(w.Pools))]
+			r := p.Ranges[rng.Intn(len(p.Ranges))]
+			e = expIP{IP: u32ip(r.First), Prefix: 8 + rng.Intn(24), Gateway: u32ip(p.base + uint32(rng.Intn(int(p.size)))),
+				Vlan: rng.Intn(4095)}
+		default: // outside every pool
+			e = expIP{IP: fmt.Sprintf("192.168.%d.%d", rng.Intn(256), 2+rng.Intn(250)), Prefix: 24, Vlan: edgeVlans[rng.Intn(len(edgeVlans))]}
+			e.Gateway = e.IP[:strings.LastIndex(e.IP, ".")] + ".1"
+		}
+		pod.Stale = append(pod.Stale, e)
+		items = append(items, fmt.Sprintf(`{"ip":"%s/%d","vlan":%d,"gateway":%q}`, e.IP, e.Prefix, e.Vlan, e.Gateway))
+	}
+	common := `"common":{"ipinfos":[` + strings.Join(items, ",") + `]}`
+	switch {
+	case rangeText == "":
+		pod.ReqText = `{` + common + `}`
+	case rng.Intn(2) == 0:
+		pod.ReqText = `{` + rangeText + `,` + common + `}`
+	default:
+		pod.ReqText = `{` + common + `,` + rangeText + `}`
+	}
 }
 
 func minU32(a, b uint32) uint32 {
@@ -353,7 +397,7 @@ func c13Main(fl *evid.Flags) int {
 	run := evid.NewRun("C13", fl.Tier, fl.Seed, "exploration", "cnisim")
 	run.Rule = "generated IPAM worlds (3-6 pools, masks /16-/30, gateway first/last/inside, VLAN 0-4094 with edge values, " +
 		"nodeSubnets and legacy routableSubnet forms); pods request k=1-4 IPs via request_ip_range (pairwise disjoint range " +
-		"lists, possibly spanning pools with different mask/vlan/gateway) or one IP without ranges; real Filter+Bind; binding " +
+		"lists, possibly spanning pools with different mask/vlan/gateway) or one IP without ranges; about a quarter of the pods are created with an args annotation that already carries 1-3 stale common.ipinfos entries (inside/outside the pools, other masks/gateways/vlans), with and without request_ip_range; real Filter+Bind; binding " +
 		"annotation captured from the pods/binding create action; real Galaxy ADD; CNI_ARGS of every invoked plugin decoded " +
 		"with cni/ipam.Allocate. Non-trivial = a pod whose allocation reached at least one plugin; distinct = (mask, vlan, k)."
 	run.Assume("FloatingIP objects in the fake galaxy clientset are the persisted truth of what galaxy-ipam allocated")
@@ -400,7 +444,8 @@ func c13Main(fl *evid.Flags) int {
 		run.Inconclusive(fmt.Sprintf("%d of %d generated pods could not be bound: the generator is off", f, b+f))
 	}
 	for _, name := range []string{"pods_k1", "pods_k2", "pods_k3", "pods_k4", "pods_unranged", "pods_spanning_pools",
-		"vlan_zero_checked", "vlan_max_checked", "mask_30_checked", "mask_16_checked", "plugins_decoded_secondary_network"} {
+		"vlan_zero_checked", "vlan_max_checked", "mask_30_checked", "mask_16_checked", "plugins_decoded_secondary_network",
+		"pods_with_stale_ipinfos_ranged_checked", "pods_with_stale_ipinfos_unranged_checked"} {
 		if run.Counter(name) == 0 {
 			run.Inconclusive("counter " + name + " is zero: the situation it stands for was never observed")
 		}
@@ -721,6 +766,14 @@ func c13World1(run *evid.Run, env *runEnv, widx, nPods int) {
 			run.Count(fmt.Sprintf("pods_k%d", len(want)), 1)
 			if len(p.Requests) == 0 {
 				run.Count("pods_unranged", 1)
+			}
+			if len(p.Stale) > 0 {
+				run.Count("pods_with_stale_ipinfos_in_annotation_checked", 1)
+				if len(p.Requests) == 0 {
+					run.Count("pods_with_stale_ipinfos_unranged_checked", 1)
+				} else {
+					run.Count("pods_with_stale_ipinfos_ranged_checked", 1)
+				}
 			}
 			pools := map[string]bool{}
 			for _, e := range want {
